@@ -187,6 +187,17 @@ func checkC18(c *Ctx) {
 								if ga := globalAddrRoot(a, 0); ga != nil && isModuleGlobal(ga) && writesThroughParam(callee, i, 0) {
 									g, what = ga, "write through "+callee.Name()
 								}
+								// the concurrent containers of the standard library: synchronised, but shared all the same — what
+								// one runner stores, another loads
+								if ga := globalAddrRoot(a, 0); ga != nil && isModuleGlobal(ga) && i == 0 && callee.Pkg != nil {
+									switch callee.Pkg.Pkg.Path() {
+									case "sync", "sync/atomic":
+										switch callee.Name() {
+										case "Store", "LoadOrStore", "LoadAndDelete", "Delete", "Swap", "CompareAndSwap", "CompareAndDelete", "Clear", "Put", "Get", "Add", "And", "Or":
+											g, what = ga, "update through "+callee.String()
+										}
+									}
+								}
 							}
 						}
 					}
